@@ -98,6 +98,9 @@ def run(tier):
     mc_runs.append({"unbounded_proof": "spec/proofs/FirstCrossingProofs.tla", "tool": "tlapm (TLAPS)", "obligations_proved": n_proved, "seconds": round(t_pr, 2),
                     "theorem": "Spec => []StoppedAtFirstCrossing (Strict = FALSE is C13's stop rule)",
                     "bound_to_the_machine_by": "PROPERTY ImplementsFirstCrossing of spec/EnsembleRefinesFC.tla, checked by TLC on every system above"})
+    t_apa = common.apalache_first_crossing(strict=False)
+    mc_runs.append({"inductive_invariant_symbolic": "spec/apalache/FirstCrossingApa.tla", "tool": "apalache-mc 0.58 (z3)", "seconds": t_apa,
+                    "checked": "Init => IndInv; IndInv /\\ Next => IndInv' for Strict = FALSE, all integer amounts and limits, history of up to 4 records"})
     # systems that are not generable must refuse on both entry points
     refusals = 0
     for text, smw in (("CCO.|30%|CCC.|70%|", None), ("CCO.|30%|CCC", None), ("CC.|40%|O{[$][$]CC[$][$]}N", 150), ("CCO.|10%|CCC.|100|CCCC.|100|", None),
